@@ -155,3 +155,125 @@ pub fn cmd_fn_replay(args: &[String]) -> i32 {
     println!("{}", json!({"texts": n, "mismatches": bad}));
     0
 }
+
+// ------------------------------------------------------------------ nested sources and build-time execution (MC_C17D)
+const SEPS_PLAIN: [&str; 4] = [" ", "  ", "\t", " \t "];
+
+/// Lay out one source; returns the text and the byte range of every abstract token.
+fn layout(toks: &[String], texts: &[Option<String>], files: &[Option<String>], variant: usize, rich: bool, lead: bool) -> (String, Vec<(usize, usize)>) {
+    let mut text = String::new();
+    if lead && variant % 3 == 1 { text.push_str("\"é→😀\" drop "); }
+    if lead && variant % 3 == 2 { text.push_str("\\ commentaire é\r\n"); }
+    let mut ranges = vec![];
+    for (i, t) in toks.iter().enumerate() {
+        if i > 0 {
+            text.push_str(if rich { SEPS[(variant * 5 + i * 3) % SEPS.len()] } else { SEPS_PLAIN[(variant + i) % SEPS_PLAIN.len()] });
+        }
+        let s = text.len();
+        if let Some(k) = t.strip_prefix("@inj:") {
+            let k: usize = k.parse().unwrap();
+            text.push_str(&format!("#( \"{}\" ~)", texts[k - 1].as_ref().unwrap()));
+        } else if let Some(k) = t.strip_prefix("@inc:") {
+            let k: usize = k.parse().unwrap();
+            text.push_str(&format!("include \"{}\"", files[k - 1].as_ref().unwrap()));
+        } else {
+            text.push_str(t);
+        }
+        ranges.push((s, text.len()));
+    }
+    if lead && variant % 2 == 1 { text.push_str("\n1 2"); }
+    (text, ranges)
+}
+
+pub fn judge_nested(case: &Value, variant: usize, scratch: &str, serial: usize) -> Option<Value> {
+    let srcs: Vec<Vec<String>> = case["srcs"].as_array().map(|a| a.iter().map(|s| s.as_array().map(|t| t.iter().map(|x| x.as_str().unwrap_or("").to_string()).collect()).unwrap_or_default()).collect()).unwrap_or_default();
+    let n = srcs.len();
+    let included: Vec<bool> = (0..n).map(|k| srcs.iter().any(|s| s.iter().any(|t| *t == format!("@inc:{}", k + 1)))).collect();
+    let mut texts: Vec<Option<String>> = vec![None; n];
+    let mut files: Vec<Option<String>> = vec![None; n];
+    let mut ranges: Vec<Vec<(usize, usize)>> = vec![vec![]; n];
+    // inner sources first (a source only refers to later ones)
+    for k in (0..n).rev() {
+        let rich = k == 0 || included[k]; // text injected through a string literal keeps to blanks and tabs
+        let (t, r) = layout(&srcs[k], &texts, &files, variant, rich, k == 0);
+        if included[k] {
+            let path = format!("{}/inc_{}_{}_{}.xeh", scratch, serial, variant, k + 1);
+            std::fs::write(&path, &t).unwrap();
+            files[k] = Some(path);
+        }
+        texts[k] = Some(t);
+        ranges[k] = r;
+    }
+    let mut xs = fresh();
+    let prior = variant % 3;
+    if prior >= 1 { let _ = xs.eval("1 drop"); }
+    let outer = texts[0].clone().unwrap();
+    if prior >= 2 { let _ = guarded(|| xs.eval(&outer)); let _ = xs.eval("depth 0 do drop loop"); }
+    let nsrc = xs.verif_dump().sources_len;
+    let r = guarded(|| xs.eval(&outer));
+    let fsrc = case["src"].as_u64().unwrap_or(1) as usize - 1;
+    let ftok = case["tok"].as_u64().unwrap_or(1) as usize - 1;
+    let mut why: Vec<String> = vec![];
+    match r {
+        Outcome::Panic(m) => why.push(format!("panic: {}", m)),
+        Outcome::Done(Ok(())) => why.push("the program did not fail".into()),
+        Outcome::Done(Err(e)) => {
+            if err_class(&e) != case["cls"].as_str().unwrap_or("") {
+                why.push(format!("error class {} ({}), expected {}", err_class(&e), e, case["cls"]));
+            }
+            match xs.last_err_location() {
+                None => why.push("no error location".into()),
+                Some(loc) => {
+                    let want = ranges[fsrc][ftok];
+                    let wtext = texts[fsrc].as_ref().unwrap();
+                    let tr = loc.token.range();
+                    let fname = if included[fsrc] { files[fsrc].clone().unwrap() } else { format!("<buffer#{}>", nsrc + fsrc) };
+                    if loc.filename.as_str() != fname {
+                        why.push(format!("names the source {:?}, the failing token {:?} is in {:?}", loc.filename.as_str(), &wtext[want.0..want.1], fname));
+                    }
+                    if (tr.start, tr.end) != want || loc.token.as_str() != &wtext[want.0..want.1] {
+                        why.push(format!("blames {:?} at bytes {}..{} of {:?}, the failing token is {:?} at {}..{} of {:?}", loc.token.as_str(), tr.start, tr.end,
+                                         loc.filename.as_str(), &wtext[want.0..want.1], want.0, want.1, fname));
+                    } else {
+                        let (line, col, whole) = locate(wtext, tr.start);
+                        if loc.line != line || loc.col != col {
+                            why.push(format!("reports line {} column {}, the token is at line {} column {}", loc.line, loc.col, line, col));
+                        }
+                        if loc.whole_line.as_str() != whole {
+                            why.push(format!("quotes the line {:?}, the token's line is {:?}", loc.whole_line.as_str(), whole));
+                        }
+                    }
+                }
+            }
+            match guarded(|| xs.pretty_error()) {
+                Outcome::Panic(m) => why.push(format!("pretty_error panicked: {}", m)),
+                Outcome::Done(None) => why.push("pretty_error returned nothing".into()),
+                Outcome::Done(Some(_)) => {}
+            }
+        }
+    }
+    for f in files.iter().flatten() { let _ = std::fs::remove_file(f); }
+    if why.is_empty() { None } else { Some(json!({"text": outer, "sources": texts, "kind": case["kind"], "why": why, "variant": variant})) }
+}
+
+/// xv locnest-replay <tlc-output> <mismatches> <variants> <scratch dir (absolute)>
+pub fn cmd_nested_replay(args: &[String]) -> i32 {
+    let variants: usize = args.get(2).and_then(|s| s.parse().ok()).unwrap_or(3);
+    let scratch = args[3].clone();
+    let mut n = 0usize;
+    let mut bad = 0usize;
+    let mut out = String::new();
+    for_each_replay_line(&args[0], |c| {
+        n += 1;
+        for v in 0..variants {
+            if let Some(m) = judge_nested(&c, v, &scratch, n) {
+                bad += 1;
+                if bad <= 200 { out.push_str(&m.to_string()); out.push('\n'); }
+                break;
+            }
+        }
+    });
+    std::fs::write(&args[1], out).unwrap();
+    println!("{}", json!({"programs": n, "layouts": n * variants, "mismatches": bad}));
+    0
+}
